@@ -61,7 +61,16 @@ def main():
     if hasattr(mod, "worker_init"):
         mod.worker_init()
     with open(outp, "w") as out:
-        for idx, case in job["cases"]:
+        for n_done, (idx, case) in enumerate(job["cases"]):
+            if n_done and n_done % 8 == 0:
+                # bound the memory held by compiled executables (every case compiles new programs)
+                try:
+                    import gc
+                    import jax
+                    jax.clear_caches()
+                    gc.collect()
+                except Exception:
+                    pass
             res = run_one(mod, case, timeout_s)
             res["i"] = idx
             out.write(json.dumps(res) + "\n")
